@@ -86,6 +86,20 @@ def run(e: Engine, rep: Report):
              'preceded by one complete CRLF or by nothing: no other value '
              'is ever assigned to DataSender.end_marker')
     r59(e, rep)
+    rep.rule('R5.11', 'what decides the end marker is gathered over all '
+             'parts: self.parts is only iterated, never read at a fixed '
+             'position (an empty or one-byte last part says nothing about '
+             'how the data ends)')
+    r511(e, rep)
+    rep.rule('R5.12', 'everything goes out through the send buffer, in '
+             'order: IO.raw_send is called by IO.flush_send only, '
+             'buffered_send only appends (a piece written around the buffer '
+             'overtakes what was buffered before it)')
+    r512(e, rep)
+    rep.rule('R5.13', 'a line is finished by its terminator only: '
+             'handle_finished_line is called inside the pass over the '
+             'complete lines of the piece and nowhere else in the reader')
+    r513(e, rep)
     rep.rule('R5.10', 'the reader looks for the end of the data after '
              'every socket read: between two raw_recv calls of '
              'DataReader.recv lie add_lines and the EOD test (a read '
@@ -735,3 +749,98 @@ def r510(e: Engine, rep: Report):
                   'depending only on how the stream was cut', loc=r.loc(),
                   reason='add_lines and the EOD test lie between two reads',
                   witness=dataflow.render_path(pth, 14) if pth else None)
+
+
+# ------------------------------------------------------------------ R5.11
+def r511(e: Engine, rep: Report):
+    c = e.p.cls(SENDER)
+    n_iter = 0
+    for mname, m in sorted(c.methods.items()):
+        for x in ast.walk(m.node):
+            if isinstance(x, ast.Subscript) and \
+                    ast.unparse(x.value) == 'self.parts' and \
+                    isinstance(x.ctx, ast.Load) and not isinstance(
+                        x.slice, ast.Slice):
+                rep.evaluations += 1
+                rep.functions.add(m.qname)
+                rep.bad('R5.11', m.qname, 'fixed position `%s`'
+                        % ast.unparse(x),
+                        '%s looks at one fixed part (`%s`): how the data '
+                        'ends is decided by its last bytes wherever the '
+                        'caller cut it into parts - with an empty or '
+                        'one-byte last part the end marker is chosen from '
+                        'the wrong bytes (no line break before the final '
+                        'dot, or one too many)' % (mname, ast.unparse(x)),
+                        loc=m.loc(x))
+            if isinstance(x, (ast.For, ast.comprehension)) and \
+                    'self.parts' in ast.unparse(x.iter):
+                n_iter += 1
+    rep.evaluations += 1
+    if n_iter < 2:
+        rep.error('anchor vanished: passes over self.parts in DataSender '
+                  '(%d < 2)' % n_iter)
+    else:
+        rep.ok('R5.11', SENDER, 'self.parts is only iterated',
+               reason='%d passes, no fixed index' % n_iter)
+
+
+# ------------------------------------------------------------------ R5.12
+def r512(e: Engine, rep: Report):
+    IOQ = 'slimta.smtp.io.IO'
+    n = 0
+    for f in e.p.functions.values():
+        if not f.module.name.startswith('slimta.'):
+            continue
+        for x in walk_own(f.node):
+            if isinstance(x, ast.Attribute) and x.attr == 'raw_send' and \
+                    isinstance(x.ctx, ast.Load):
+                n += 1
+                rep.evaluations += 1
+                rep.functions.add(f.qname)
+                rep.check(f.qname == IOQ + '.flush_send', 'R5.12', f.qname,
+                          'use of raw_send',
+                          '%s writes to the socket around the send buffer: '
+                          'what was buffered before (header part, a '
+                          'stuffing dot, the end marker of the previous '
+                          'piece) is overtaken, the peer reads the pieces '
+                          'in another order than they were produced'
+                          % f.qname, loc=f.loc(x),
+                          reason='only IO.flush_send empties the buffer '
+                          'onto the socket')
+    if n < 1:
+        rep.error('anchor vanished: uses of IO.raw_send (%d < 1)' % n)
+
+
+# ------------------------------------------------------------------ R5.13
+def r513(e: Engine, rep: Report):
+    rc = common.merged_class(e, READER)
+    n = 0
+    for mname, m in sorted(rc.methods.items()):
+        for x in walk_own(m.node):
+            if not (isinstance(x, ast.Call) and
+                    isinstance(x.func, ast.Attribute) and
+                    x.func.attr == 'handle_finished_line'):
+                continue
+            n += 1
+            rep.evaluations += 1
+            rep.functions.add(m.qname)
+            loops = [l for l in walk_own(m.node)
+                     if isinstance(l, (ast.For, ast.While)) and any(
+                         y is x for y in ast.walk(l))]
+            guarded = any(
+                isinstance(i, ast.If) and any(y is x for y in ast.walk(i))
+                and ('finished' in ast.unparse(i.test) or
+                     'match' in ast.unparse(i.test))
+                for i in walk_own(m.node))
+            rep.check(bool(loops) or guarded, 'R5.13', m.qname,
+                      'handle_finished_line only for terminated lines',
+                      '%s calls handle_finished_line() outside the pass '
+                      'over the complete lines of the piece: an '
+                      'unterminated line is closed off where a read '
+                      'happened to end, the rest of it is then taken for '
+                      'the start of a line (a leading dot is removed, a '
+                      'lone dot ends the data) - the result depends on how '
+                      'the stream was cut' % mname, loc=m.loc(x),
+                      reason='inside the loop over terminated lines')
+    if n < 1:
+        rep.error('anchor vanished: handle_finished_line call sites')
